@@ -557,11 +557,12 @@ func genC07(r *rng, n int) {
 			deep := 0
 			var deepLeaf *pgVal
 			var deepSpine [][]c07Step
-			if deepSchema && k == 0 {
-				depths := c07DeepDepthsQuick
-				if n >= 3000 { // thorough tier
-					depths = c07DeepDepths
-				}
+			// capped by COUNT, independent of n (each deep value costs the judge seconds): thorough tier 3 values per depth
+			depths, deepCap := c07DeepDepthsQuick, 12
+			if n >= 3000 { // thorough tier
+				depths, deepCap = c07DeepDepths, 3*len(c07DeepDepths)
+			}
+			if deepSchema && k == 0 && deepCount < deepCap {
 				deep = depths[deepCount%len(depths)]
 				deepCount++
 				val, deepLeaf, deepSpine = c07DeepValue(vr, c, deep)
